@@ -211,6 +211,9 @@ func (b *bodyGen) expr(k int) string {
 		}
 	}
 	if r.Chance(0.2) {
+		if r.Chance(0.4) {
+			return nestExpr(b.g, b.feat) // colliding for-scopes (nest.go)
+		}
 		return shadowWrap(b.g, b.feat)
 	}
 	return b.g.GenTopExpr()
@@ -418,18 +421,30 @@ func runHCLDec(rep *hv.Report, r *hv.Rng, input, text string, sh *specShape, ctx
 		return
 	}
 	var R map[string]bool
+	var hvars []hcl.Traversal
 	func() {
 		defer func() {
 			if p := recover(); p != nil {
 				rep.Fail(hv.Failure{Kind: "panic", Detail: fmt.Sprint("hcldec.Variables: ", p), Input: input})
 			}
 		}()
-		R = roots(hcldec.Variables(f.Body, sh.spec))
+		hvars = hcldec.Variables(f.Body, sh.spec)
+		R = roots(hvars)
 	}()
 	if R == nil {
 		return
 	}
 	rep.Hist(fmt.Sprintf("hcldec:roots:%d", min(len(R), 6)))
+	// every reported traversal is a root-scope reference of some attribute expression of the body
+	// (which attributes are read is the spec's business: sub-multiset, not equality)
+	if sb, ok := f.Body.(*hclsyntax.Body); ok {
+		rw := newRefWalker()
+		bodyRefs(sb, rw)
+		rw.hist(rep, "forscope:hcldec:")
+		if len(rw.unknown) == 0 {
+			compareRefs(rep, input, "hcldec.Variables", hvars, rw, false)
+		}
+	}
 	full, _ := checkScopes(rep, r, "", input, ctx, R, func(c *hcl.EvalContext) string {
 		v, d := hcldec.Decode(f.Body, sh.spec, c)
 		return outcome(v, d, true)
@@ -545,17 +560,29 @@ func runDyn(rep *hv.Report, r *hv.Rng, input, text string, sh *specShape, ctx *h
 		}
 	}
 	var R, RE map[string]bool
+	var dvars, devars []hcl.Traversal
 	func() {
 		defer func() {
 			if p := recover(); p != nil {
 				rep.Fail(hv.Failure{Kind: "panic", Detail: fmt.Sprint("dynblock.VariablesHCLDec: ", p), Input: input})
 			}
 		}()
-		R = roots(dynblock.VariablesHCLDec(f.Body, sh.spec))
-		RE = roots(dynblock.ExpandVariablesHCLDec(f.Body, sh.spec))
+		dvars = dynblock.VariablesHCLDec(f.Body, sh.spec)
+		devars = dynblock.ExpandVariablesHCLDec(f.Body, sh.spec)
+		R, RE = roots(dvars), roots(devars)
 	}()
 	if R == nil || RE == nil {
 		return
+	}
+	// for-bound occurrences inside attribute expressions, for_each and labels are never reported
+	if sb, ok := f.Body.(*hclsyntax.Body); ok {
+		rw := newRefWalker()
+		bodyRefs(sb, rw)
+		rw.hist(rep, "forscope:dynblock:")
+		if len(rw.unknown) == 0 {
+			compareRefs(rep, input, "dynblock.VariablesHCLDec", dvars, rw, false)
+			compareRefs(rep, input, "dynblock.ExpandVariablesHCLDec", devars, rw, false)
+		}
 	}
 	rep.Hist(fmt.Sprintf("dynblock:roots:%d", min(len(R), 6)))
 	rep.Hist(fmt.Sprintf("dynblock:expand-roots:%d", min(len(RE), 6)))
